@@ -46,5 +46,27 @@ Proof.
   intros H. unfold verdict. cbn [eval_b]. rewrite H. split; reflexivity.
 Qed.
 Print Assumptions spec_and_or_total.
+(* ---- string operators (Spec/StrOpSpec.v): the executable operators decide the documented statements *)
+From YV Require Import Base.Bytes Spec.StrOpSpec Proofs.StrOpProofs.
+
+Theorem contains_spec : forall hay needle, contains hay needle = true <-> exists p s, hay = (p ++ needle ++ s)%list.
+Proof. exact contains_spec_proof. Qed.
+Print Assumptions contains_spec.
+
+Theorem startswith_endswith_eq_spec : forall a b,
+  (strop_eval SStartsWith a b = true <-> exists t, a = (b ++ t)%list) /\
+  (strop_eval SEndsWith a b = true <-> exists t, a = (t ++ b)%list) /\
+  (strop_eval SEq a b = true <-> a = b).
+Proof. intros a b. split; [apply startswith_spec_proof|split; [apply endswith_spec_proof|apply str_eq_spec_proof]]. Qed.
+Print Assumptions startswith_endswith_eq_spec.
+
+Theorem case_insensitive_forms : forall a b,
+  strop_eval SIContains a b = strop_eval SContains (lower_s a) (lower_s b) /\
+  strop_eval SIStartsWith a b = strop_eval SStartsWith (lower_s a) (lower_s b) /\
+  strop_eval SIEndsWith a b = strop_eval SEndsWith (lower_s a) (lower_s b) /\
+  (strop_eval SIEquals a b = true <-> lower_s a = lower_s b).
+Proof. exact i_forms_proof. Qed.
+Print Assumptions case_insensitive_forms.
+
 (* not proved (correspondence only): that the bytecode the compiler emits for a condition computes
    eval_b of that condition (compile_cond / vm_expr_correct of the design). *)
